@@ -102,6 +102,12 @@ func vNewScenario(strategyKind int, ownershipOnly bool) *vAdoptionScenario {
 				kind = "ClusterObjectSetPhase"
 			}
 			s.prevEnts = append(s.prevEnts, vEntity{APIVersion: pkoAPIVersion, Kind: kind, Name: rp.Name, UID: string(rp.UID)})
+			// a revision with two delegated phases (the identity "rp2" is free while there is one previous revision)
+			if nPrev == 1 && verifrt.Bool(name+".hasSecondRemotePhase") {
+				rp2 := corev1alpha1.RemotePhaseReference{Name: "rp2", UID: "uid-rp2"}
+				p.remotes = append(p.remotes, rp2)
+				s.prevEnts = append(s.prevEnts, vEntity{APIVersion: pkoAPIVersion, Kind: kind, Name: rp2.Name, UID: string(rp2.UID)})
+			}
 		}
 		s.prev = append(s.prev, p)
 	}
